@@ -150,6 +150,7 @@ func main() {
 		evid.ServeWorker(worker)
 	}
 	run := evid.New("C11", "fault_enumeration")
+	run.MaxVio = 60 // one replay file per signature; the catalogue is large, root causes are few
 	run.Rule("execution = (base conversation, <=1 deviation in quick / <=2 in thorough, server configuration); base conversations {play-tcp, play-udp, record-tcp, record-udp, http-tunnel GET+POST, websocket upgrade, describe with credentials} as lists of raw requests/frames; deviation catalogue applied at EVERY applicable position: delete/duplicate/overflow(5000 bytes) each header, 300 extra headers, malformed header lines, CSeq / Content-Length / client_port / interleaved / ttl extremes, inconsistent Transport (mode, profile, multicast, protocol switch, lists, garbage), Session (other id, empty, 1000 chars), KeyMgmt garbage, Authorization garbage, Range garbage, request-line faults (method, URL, protocol), 20 invalid SDP bodies, reorder / pipeline / repeat / drop adjacent requests, interleaved frames (valid, unknown channel, length 0 / 65535, RTCP garbage) and binary garbage and responses and HTTP requests inserted at every position, response instead of request, splice of every prefix with every other conversation, tunnel faults (POST without GET, two POSTs, two GETs, cookie mismatch, invalid base64), WebSocket faults (bad handshakes, control/fragment/reserved/oversize frames), truncation of the byte stream at every offset followed by close or by silence; configurations: handlers {all, describeonly} x UDP {on, off} x second well-behaved connection {absent, present} (+TLS in thorough); non-trivial = the hostile connection's observable outcome (status list, point where the server closed it, sessions opened) differs from the undeviated conversation in the same configuration")
 	run.Assume("quiescence barrier: after every write the harness waits until every library goroutine is blocked (sysx.Settle) and only then reads; virtual time moves only through Env.Advance; wall-clock time is the hang detector only")
 	run.Assume("after the last hostile byte virtual time advances by IdleTimeout+ReadTimeout+WriteTimeout+5 s in 4 steps; by then every hostile connection must have been closed by the server and every session it created must have ended (UDP sessions by their own timeout)")
@@ -203,7 +204,9 @@ func main() {
 	}
 
 	// ---- enumeration
+	// configurations; in quick the configurations after the first three see every third deviation
 	var cfgs []Cfg
+	fullCfgs := 3
 	if run.Thorough() {
 		for _, h := range []string{"all", "describeonly"} {
 			for _, u := range []bool{true, false} {
@@ -212,9 +215,11 @@ func main() {
 				}
 			}
 		}
-		cfgs = append(cfgs, Cfg{Handlers: "all", UDP: true, TLS: true})
+		cfgs = append(cfgs, Cfg{Handlers: "all", UDP: true, TLS: true}, Cfg{Handlers: "all", UDP: true, TLS: true, Second: true})
+		fullCfgs = len(cfgs)
 	} else {
-		cfgs = []Cfg{baseCfg, {Handlers: "all", UDP: false, Second: true}, {Handlers: "describeonly", UDP: true}}
+		cfgs = []Cfg{baseCfg, {Handlers: "all", UDP: false, Second: true}, {Handlers: "describeonly", UDP: true},
+			{Handlers: "all", UDP: true, TLS: true}, {Handlers: "describeonly", UDP: false, Second: true}}
 	}
 	if os.Getenv("C11_ONLYCFG") == "tls" {
 		cfgs = []Cfg{{Handlers: "all", UDP: true, TLS: true}}
@@ -225,6 +230,7 @@ func main() {
 		cases = append(cases, c)
 		counts[kind]++
 	}
+	catalogue := map[string]int{}
 	for ci, cfg := range cfgs {
 		for _, cn := range convNames {
 			c := cfgFor(cn, cfg)
@@ -233,43 +239,37 @@ func main() {
 			}
 			addCase("control", Case{Conv: cn, Cfg: c})
 			singles := append(singleDevs(cn), spliceDevs(cn)...)
-			if !run.Thorough() && ci > 0 {
-				// quick: the other configurations see a third of the catalogue each (every third deviation)
-				var sub []Dev
-				for k, d := range singles {
-					if k%3 == ci {
-						sub = append(sub, d)
-					}
+			catalogue[cn] = len(singles)
+			for k, d := range singles {
+				if d.Op == "no-tls" && !c.TLS {
+					continue
 				}
-				singles = sub
-			}
-			for _, d := range singles {
+				if ci >= fullCfgs && k%3 != ci%3 {
+					continue
+				}
 				addCase("single", Case{Conv: cn, Devs: []Dev{d}, Cfg: c})
 			}
 		}
 	}
-	// truncation at every offset
+	run.Set("single_deviations_per_conversation", catalogue)
+	// truncation at every byte offset, then close / then silence
+	streamBytes := map[string]int{}
 	for _, cn := range convNames {
 		c := cfgFor(cn, baseCfg)
+		streamBytes[cn] = streamLen(baseConv(cn))
+		for _, d := range truncDevs(cn, []string{"close", "silent"}, 1) {
+			addCase("truncate", Case{Conv: cn, Devs: []Dev{d}, Cfg: c})
+		}
 		if run.Thorough() {
-			for _, d := range truncDevs(cn, []string{"close", "silent"}, 1) {
-				addCase("truncate", Case{Conv: cn, Devs: []Dev{d}, Cfg: c})
-			}
-			c2 := c
-			c2.Second = true
-			for _, d := range truncDevs(cn, []string{"close"}, 1) {
-				addCase("truncate", Case{Conv: cn, Devs: []Dev{d}, Cfg: c2})
-			}
-		} else {
-			// quick: every offset, the two endings alternate with the offset parity
-			for _, d := range truncDevs(cn, []string{"close"}, 1) {
-				if d.Pos%2 == 1 {
-					d.Val, d.Class = "silent", strings.TrimSuffix(d.Class, "close")+"silent"
+			for _, c2 := range []Cfg{{Handlers: "all", UDP: true, Second: true}, {Handlers: "all", UDP: true, TLS: true}} {
+				c2 = cfgFor(cn, c2)
+				for _, d := range truncDevs(cn, []string{"close", "silent"}, 1) {
+					addCase("truncate", Case{Conv: cn, Devs: []Dev{d}, Cfg: c2})
 				}
-				addCase("truncate", Case{Conv: cn, Devs: []Dev{d}, Cfg: c})
 			}
 		}
 	}
+	run.Set("stream_bytes_per_conversation", streamBytes)
 	run.Set("cases_by_kind_round1", counts)
 	if os.Getenv("C11_VERBOSE") != "" {
 		fmt.Fprintf(os.Stderr, "round 1: %d cases %v\n", len(cases), counts)
@@ -346,21 +346,26 @@ func main() {
 					continue
 				}
 				n1 := streamLen(steps1)
-				// second deviation: cut the deviated stream at every step boundary after the first deviation
+				// second deviation: cut the deviated stream at every step boundary after the first deviation (cuts
+				// that leave a connection with fewer than 4 bytes are enumerated as single deviations only)
 				off := 0
 				for si := range steps1 {
-					if steps1[si].Kind == "udp" {
+					if steps1[si].Kind == "udp" || steps1[si].Kind == "close" {
 						continue
 					}
 					off += len(steps1[si].render(dummySID))
 					if si < d1.Pos {
 						continue
 					}
+					where := truncWhere(steps1, off)
+					if where == "in-first-4-bytes" {
+						continue
+					}
 					for _, e := range []string{"close", "silent"} {
 						if off == n1 && e == "silent" {
 							continue // identical to the single deviation
 						}
-						pairs = append(pairs, Case{Conv: cn, Devs: []Dev{d1, {Class: "truncate-at-step-boundary-then-" + e, Op: "trunc", Pos: off, Val: e}}, Cfg: c})
+						pairs = append(pairs, Case{Conv: cn, Devs: []Dev{d1, {Class: "truncate-" + where + "-then-" + e, Op: "trunc", Pos: off, Val: e}}, Cfg: c})
 					}
 				}
 				// second deviation: a frame / a CSeq-less request / a foreign session id after the first
